@@ -24,7 +24,10 @@ CONFIG = {
             "C44_spec_ok_sound / C44_spec_trans_sound) reads only the inputs and these observations: no txid twice; whenever the calls made so far oblige the "
             "pool to have processed the latest block (an OnNewBlock for a block at or above the round it worked on was delivered since the ledger last grew): "
             "its evaluator is for latest+1, no committed txid is pending and the oracle replay succeeds; size <= max + pending singleton state proofs; "
-            "admitted => the oracle accepted; an admitted group is appended (and is a single state-proof transaction if the pool is then above its size), a "
+            "admitted => the oracle accepted; after EVERY call the pool's other views of what it holds agree with PendingTxGroups: set(PendingTxIDs()) = txids of "
+            "the pending groups, Lookup() reports exactly those (among all transactions the harness ever built) as in the pool, PendingCount() = their number "
+            "(so a rejected submission or a dropped group leaves nothing behind in the ID index / size accounting; model counterpart C44_no_dup_txid: "
+            "p_ids = txids of pending); an admitted group is appended (and is a single state-proof transaction if the pool is then above its size), a "
             "rejected one changes nothing, OnNewBlock only removes groups. Overflow classes: exactly one over -> finding stateproof_txn_overflows_pool_by_one, "
             "two or more over -> stateproof_overflow_accumulates_across_blocks; any other excess is a violation. A case is non-trivial when it has an admitted and a rejected "
             "submission and a recomputation that dropped a group; distinct = distinct case lines.",
